@@ -40,7 +40,7 @@ func init() {
 			"lines of length max-3..max are a don't-care band (either stored verbatim or skipped, consistently); only clearly malformed lines (truncated, unbalanced, bare words) must reject the request, grey-zone JSON is judged for all-or-nothing only",
 			"one max-document-size per worker process (the line reader pool keeps its first buffer size, as one process has one setting)",
 		},
-		Batches: tiered(64, 480),
+		Batches: tiered(640, 9600),
 		Run:     runC10,
 		Timeout: timeoutFor(8*time.Minute, 40*time.Minute),
 	})
@@ -307,8 +307,8 @@ func runC10(w *h.W, batch int) {
 			var sb strings.Builder
 			for j := cr.Range(1, 12); j > 0; j-- {
 				t := mkValid(cr, 0)
-				if len(t) > maxDoc {
-					continue
+				if len(t) >= maxDoc-3 {
+					continue // over-size or inside the don't-care band around the limit: only plainly valid documents here
 				}
 				q.lines = append(q.lines, c10Line{text: t, class: "valid"})
 				sb.WriteString(`{"index":{}}` + "\n" + t + "\n")
